@@ -133,8 +133,49 @@ def run(res):
             d = vlib.first_diff(ops2, cb2, lb)
             if rl != 0 or d: tie = d or (0, [], [lerr[-100:]])
         return ops2, j, k, bad, tie
+    # device level: every access of opening a partitioned disk (RDSK, PART, FSHD, LSEG reads) and of mounting one of its
+    # volumes fails in turn; afterwards, with the fault cleared, the device opens and every partition lists as before
+    def devjobs():
+        out = []
+        for i in range(3 if res.tier == "quick" else 24):
+            rng = vlib.rng_for(res.seed, f"C19dev/{i}")
+            cyl, heads, secs, parts = gen.rdb_layout(rng)
+            while len(parts) < 2: cyl, heads, secs, parts = gen.rdb_layout(rng)
+            base = [f"newdev 0 {cyl} {heads} {secs}", "clock 2018 8 8 8 8 8",
+                    "mkhd 0 %d " % len(parts) + " ".join(f"{s} {l} {gen.hx(n)} {t}" for s, l, n, t in parts), "closedev 0"]
+            k = rng.randrange(len(parts))
+            fill = ["opendev 0 0", f"mount 0 {k} 0", f"mkdir 0 {k} {gen.hx(b'dd')}", f"open 1 0 {k} {gen.hx(b'ff')} 2", "write 1 1500 4", "close 1",
+                    f"unmount 0 {k}", "closedev 0"]
+            probe = ["opendev 0 0"] + [x for j in range(len(parts)) for x in (f"mount 0 {j} 0", f"list 0 {j} 1", f"free 0 {j}", f"unmount 0 {j}")] + ["closedev 0"]
+            rc, cb, err = vlib.run_c(exe, base + fill + probe)
+            if rc != 0: continue
+            want = [b[0] for b in cb[len(base) + len(fill):]]
+            counts = access_counts(cb)
+            jo = len(base) + len(fill)            # the probing opendev
+            for kk in range(counts[jo]): out.append((base + fill, probe, want, "opendev", kk, k))
+            jm = jo + 1 + 4 * k
+            for kk in range(min(counts[jm], 40)): out.append((base + fill, probe, want, f"mount 0 {k} 0", kk, k))
+        return out
+    def devone(job):
+        pre, probe, want, op, kk, k = job
+        if op == "opendev": ops2 = pre + [f"fault {kk}", "opendev 0 0", "faultclear", "closedev 0"] + probe
+        else: ops2 = pre + ["opendev 0 0", f"fault {kk}", op, "faultclear", f"unmount 0 {k}", "closedev 0"] + probe
+        rc2, cb2, err2 = vlib.run_c(exe, ops2, timeout=120)
+        san = vlib.sanitizer_report(err2)
+        b = []
+        if san or rc2 != 0: b.append(f"{san or 'exit %d' % rc2} with access {kk} of '{op}' on a partitioned disk failing")
+        else:
+            got = [x[0] for x in cb2[len(ops2) - len(probe):]]
+            if got != want:
+                d = next((i for i, (x, y) in enumerate(zip(got, want)) if x != y), None)
+                b.append(f"after access {kk} of '{op}' failed and the fault cleared, the disk no longer reads as before: '{probe[d] if d is not None else '?'}' gives {got[d][:80] if d is not None else '?'}, before: {want[d][:80] if d is not None else '?'}")
+        return ops2, b
     bad, ties = [], []
     with ThreadPoolExecutor(12) as ex:
+        dj = devjobs()
+        for ops2, b in ex.map(devone, dj):
+            for m in b: bad.append((ops2, m))
+        res.cov["device_fault_points"] = len(dj)
         for ops2, j, k, b, tie in ex.map(one, jobs):
             res.note_case((len(ops2), j, k, ops2[j + 1].split()[0]), None)
             for m in b: bad.append((ops2, m))
